@@ -48,3 +48,24 @@ fn c12_fasta_consume_sequence_line_unterminated() {
     let (w2, b2) = consume_sequence_line(&mut src).unwrap();
     assert!(w2 == 0 && b2 == 0 && src.pos == 3);
 }
+
+fn line_case(k: usize) {
+    let b: [u8; 3] = kani::any();
+    kani::assume(base(b[0]) && base(b[1]) && base(b[2]));
+    let data = [b[0], b[1], b'\r', b'\n', b[2]];
+    let mut src = ChunkyBuf::new(&data).split_at(k);
+    let (width, bases) = consume_sequence_line(&mut src).unwrap();
+    assert!(width == 4 && bases == 2);
+    assert_eq!(src.pos, 4);
+}
+
+// @verif prop=C12,C11 id=O12.4e tier=off off_reason="does not fit: >600 s even with CONCRETE split points -- the real memchr SSE2 path over symbolic bytes is what explodes" unwind=20 timeout=600 stubs="std::arch::x86_64::__cpuid_count->no optional CPU features (memchr runs its real SSE2 path)" bound="line b0 b1 CR LF followed by b2 (symbolic base bytes), delivered in two fill_buf windows split after byte 1, 2, 3 (between CR and LF) or 4 (one run each; split positions are concrete, R13): (line width, bases) == (4, 2), scanner stops after the LF" fns="fasta::io::indexer::consume_sequence_line,count_bases"
+#[kani::proof]
+#[kani::unwind(20)]
+#[kani::stub(std::arch::x86_64::__cpuid_count, fake_cpuid)]
+fn c12_fasta_consume_sequence_line_crlf_split_anywhere() {
+    line_case(1);
+    line_case(2);
+    line_case(3);
+    line_case(4);
+}
